@@ -12,6 +12,7 @@ From Coq Require Import Reals.
 From Flocq Require Import Core.Core IEEE754.BinarySingleNaN.
 From Coq Require Import ZArith Floats.SpecFloat Bool List String Ascii.
 Require Import Blots.Num Blots.Outcome Blots.gen.Builtins Blots.Ast Blots.NumText.
+Require Import Blots.gen.NumGrammar.
 Require Import Blots.proofs.NumText Blots.proofs.NumTextStr Blots.proofs.NumTextFloat Blots.proofs.NumTextRT Blots.proofs.NumTextRef.
 Import ListNotations.
 Open Scope string_scope.
@@ -189,6 +190,25 @@ Proof. exact rn_decimal_sign. Qed.
 Check C16_rn_decimal_sign : forall s m e,
   0 <= m -> rn_decimal s m e = with_sign s (rn_decimal false m e).
 Print Assumptions C16_rn_decimal_sign.
+
+(* ------------------------------------------------------------------ the grammar the model uses is the repo's
+   coq/gen/NumGrammar.v is regenerated from blots-core/src/grammar.pest on every run; the seven
+   number rules, translated token for token into the PEG combinators, are the very terms the
+   model and the theorems above use (and `number` is atomic, the others silent) *)
+Theorem C16_number_grammar_is_the_models :
+  (gen_integer, gen_binary_digits, gen_hex_digits, gen_binary_number, gen_hex_number,
+   gen_decimal_number, gen_number)
+  = (g_integer, g_binary_digits, g_hex_digits, g_binary_number, g_hex_number, g_decimal_number, g_number)
+  /\ gen_rule_kinds = [("integer", "_"); ("binary_digits", "_"); ("hex_digits", "_"); ("binary_number", "_");
+                       ("hex_number", "_"); ("decimal_number", "_"); ("number", "@")].
+Proof. split; reflexivity. Qed.
+Check C16_number_grammar_is_the_models :
+  (gen_integer, gen_binary_digits, gen_hex_digits, gen_binary_number, gen_hex_number,
+   gen_decimal_number, gen_number)
+  = (g_integer, g_binary_digits, g_hex_digits, g_binary_number, g_hex_number, g_decimal_number, g_number)
+  /\ gen_rule_kinds = [("integer", "_"); ("binary_digits", "_"); ("hex_digits", "_"); ("binary_number", "_");
+                       ("hex_number", "_"); ("decimal_number", "_"); ("number", "@")].
+Print Assumptions C16_number_grammar_is_the_models.
 
 (* ------------------------------------------------------------------ the reference is IEEE RNE *)
 (* rn_decimal (the reference every text->double conversion is compared with, and the value the
